@@ -131,6 +131,14 @@ def cases(tier, seed):
                 for place in ["alone", "U-first", "U-last"] + ([] if tier == "quick" else ["RG-first"]):
                     for cls in ("SHT", "HT"):
                         add(fam="sht", cls=cls, lmax=lmax, mmax=mmax, tgt=tgt, place=place)
+    import json
+    seen, uniq = set(), []
+    for c in cs:
+        k = json.dumps(c, sort_keys=True)
+        if k not in seen:
+            seen.add(k)
+            uniq.append(c)
+    cs = uniq
     order = {"op": 0, "backend": 0, "smooth": 1, "sht": 2}
     cs.sort(key=lambda c: order[c["fam"]])         # stable: simplest (smallest grids) first inside a family
     return cs
